@@ -7,12 +7,16 @@
 (* Reference walk: starting at an endpoint, every call statement in source *)
 (* order (through if/else, loops, groups and the choices of `one of')      *)
 (* yields an arrow; the called endpoint is expanded in place unless it is  *)
-(* already being expanded (a call in progress is shown, not expanded).     *)
+(* already being expanded (a call in progress is shown, not expanded) or   *)
+(* is a blackbox (a set of endpoints given as an option: shown, with a     *)
+(* note, never expanded).                                                  *)
 (*                                                                         *)
 (* Diagram machine: participants are declared once; activate/deactivate    *)
 (* keep a depth per participant; a call arrow must be the next arrow of    *)
 (* the reference walk and its sender must be active (or the outside        *)
-(* world); blocks nest; at the end nothing is left active or open.         *)
+(* world); blocks nest; at the end nothing is left active or open.  With   *)
+(* a grouping attribute the diagram ends with one box per attribute value  *)
+(* holding exactly the declared participants that carry that value.        *)
 (***************************************************************************)
 EXTENDS Integers, Sequences, FiniteSets, TLC
 
@@ -37,8 +41,8 @@ Arrows(eps, app, ss, inprog) ==
                    ELSE <<>>
        IN here \o Arrows(eps, app, Tail(ss), inprog)
 
-\* the arrows of the diagram that starts at (a, e), the entry arrow first
-Want(eps, a, e) == << <<"[", a, e>> >> \o Arrows(eps, a, Body(eps, a, e), {<<a, e>>})
+\* the arrows of the diagram that starts at (a, e), the entry arrow first; cut = the blackboxed endpoints
+Want(eps, a, e, cut) == << <<"[", a, e>> >> \o Arrows(eps, a, Body(eps, a, e), {<<a, e>>} \cup cut)
 
 -----------------------------------------------------------------------------
 (* The diagram machine as a pure step function over a state record          *)
@@ -46,7 +50,10 @@ Want(eps, a, e) == << <<"[", a, e>> >> \o Arrows(eps, a, Body(eps, a, e), {<<a, 
 (* and events [e |-> "declare"|"call"|"activate"|"deactivate"|"open"|"else"| *)
 (*             "close"|..., alias, label, from, to, p]                       *)
 
-M0(w) == [want |-> w, i |-> 1, active |-> <<>>, depth |-> 0, declared |-> <<>>, bad |-> {}]
+\* groups: label of a participant -> value of the grouping attribute (only for participants that carry it)
+M0G(w, groups) == [want |-> w, i |-> 1, active |-> <<>>, depth |-> 0, declared |-> <<>>, bad |-> {},
+                   groups |-> groups, box |-> "", boxed |-> <<>>]
+M0(w) == M0G(w, <<>>)
 
 Act(m, p) == IF p \in DOMAIN m.active THEN m.active[p] ELSE 0
 Label(m, p) == IF p = "[" THEN "[" ELSE IF p \in DOMAIN m.declared THEN m.declared[p] ELSE "?" \o p
@@ -68,8 +75,22 @@ Open(m) == [m EXCEPT !.depth = @ + 1]
 Else(m) == Flag(m, m.depth > 0, "ElseOutsideBlock")
 Close(m) == [Flag(m, m.depth > 0, "CloseWithoutOpen") EXCEPT !.depth = IF @ > 0 THEN @ - 1 ELSE 0]
 
+\* grouping boxes: `box "<value>"`, `participant <alias>` lines, `end box`
+OpenBox(m, name) == [Flag(m, m.box = "" /\ m.depth = 0, "BoxInsideBlock") EXCEPT !.box = name]
+BoxMember(m, alias) ==
+  LET m1 == Flag(m, m.box # "", "ParticipantLineOutsideBox")
+      m2 == Flag(m1, alias \in DOMAIN m.declared, "UndeclaredParticipant")
+      m3 == Flag(m2, alias \notin DOMAIN m.boxed, "ParticipantInTwoBoxes")
+      lbl == Label(m, alias)
+      m4 == Flag(m3, lbl \in DOMAIN m.groups /\ m.groups[lbl] = m.box, "ParticipantInWrongBox")
+  IN [m4 EXCEPT !.boxed = (alias :> m.box) @@ @]
+CloseBox(m) == [m EXCEPT !.box = ""]
+
 Do(m, ev) ==
   CASE ev.e = "declare" -> Declare(m, ev.alias, ev.label)
+    [] ev.e = "open" /\ ev.kind = "box" -> OpenBox(m, ev.text)
+    [] ev.e = "boxmember" -> BoxMember(m, ev.alias)
+    [] ev.e = "close" /\ m.box # "" -> CloseBox(m)
     [] ev.e = "call" -> Call(m, ev.from, ev.to, ev.label)
     [] ev.e = "activate" -> Activate(m, ev.p)
     [] ev.e = "deactivate" -> Deactivate(m, ev.p)
@@ -81,7 +102,10 @@ Do(m, ev) ==
 \* verdict at the end of the diagram
 AtEnd(m) == m.bad \cup (IF m.i <= Len(m.want) THEN {"CallsMissing"} ELSE {})
                   \cup (IF \A p \in DOMAIN m.active : m.active[p] = 0 THEN {} ELSE {"LeftActive"})
-                  \cup (IF m.depth = 0 THEN {} ELSE {"BlockNotClosed"})
+                  \cup (IF m.depth = 0 /\ m.box = "" THEN {} ELSE {"BlockNotClosed"})
+                  \* every declared participant that carries the grouping attribute sits in a box
+                  \cup (IF \A al \in DOMAIN m.declared : m.declared[al] \in DOMAIN m.groups => al \in DOMAIN m.boxed
+                        THEN {} ELSE {"ParticipantNotGrouped"})
 
 RECURSIVE Run(_, _)
 Run(m, evs) == IF evs = <<>> THEN m ELSE Run(Do(m, Head(evs)), Tail(evs))
@@ -91,7 +115,7 @@ Run(m, evs) == IF evs = <<>> THEN m ELSE Run(Do(m, Head(evs)), Tail(evs))
 (* show that the clauses are satisfiable by the design on every small call   *)
 (* graph, including recursive ones, before any implementation is blamed.     *)
 
-E(e) == [e |-> e, alias |-> "", label |-> "", from |-> "", to |-> "", p |-> ""]
+E(e) == [e |-> e, alias |-> "", label |-> "", from |-> "", to |-> "", p |-> "", kind |-> "", text |-> ""]
 RECURSIVE Emit(_, _, _, _)
 Emit(eps, app, ss, inprog) ==
   IF ss = <<>> THEN <<>>
@@ -110,12 +134,12 @@ Emit(eps, app, ss, inprog) ==
        IN here \o Emit(eps, app, Tail(ss), inprog)
 
 Apps(eps) == {eps[j].app : j \in DOMAIN eps}
-Intended(eps, a, e) ==
+Intended(eps, a, e, cut) ==
   LET decls == [j \in 1..Cardinality(Apps(eps)) |-> E("declare")]   \* aliases are the application names
       ds == {[E("declare") EXCEPT !.alias = x, !.label = x] : x \in Apps(eps)}
   IN << [E("call") EXCEPT !.from = "[", !.to = a, !.label = e], [E("activate") EXCEPT !.p = a] >>
-     \o Emit(eps, a, Body(eps, a, e), {<<a, e>>}) \o << [E("deactivate") EXCEPT !.p = a] >>
+     \o Emit(eps, a, Body(eps, a, e), {<<a, e>>} \cup cut) \o << [E("deactivate") EXCEPT !.p = a] >>
 
 DeclareAll(m, eps) == [m EXCEPT !.declared = [x \in Apps(eps) |-> x]]
-IntendedClean(eps, a, e) == AtEnd(Run(DeclareAll(M0(Want(eps, a, e)), eps), Intended(eps, a, e))) = {}
+IntendedClean(eps, a, e, cut) == AtEnd(Run(DeclareAll(M0(Want(eps, a, e, cut)), eps), Intended(eps, a, e, cut))) = {}
 =============================================================================
